@@ -19,7 +19,7 @@ try:
 except ImportError:
     pass
 
-EXTERNAL_MODELS = {**RUST_MODELS, **TUNNEL_MODELS}
+EXTERNAL_MODELS = {**RUST_MODELS, **TUNNEL_MODELS, **DH_MODELS}
 FORWARD, BACKWARD = 0, 1
 
 
